@@ -220,9 +220,35 @@ def data_tail_then_code(rng):
     return case
 
 
+def code_into_data(rng):
+    """a code patch put into a data block that stands behind a function's code: the listing puts it into function-less
+    data, so it belongs to no function"""
+    import emodify
+
+    case = emodify.gen_case(rng, nblocks=rng.randint(2, 6), with_data=True, nedits=0)
+    text = case["text"]
+    cands = [i for i, d in enumerate(text) if d["kind"] == "data" and i > 0 and text[i - 1]["kind"] == "code" and text[i - 1].get("func") is not None]
+    if not cands:
+        return None
+    i = rng.choice(cands)
+    off = rng.choice([0, 0, len(text[i]["bytes"]), rng.randrange(len(text[i]["bytes"]) + 1)])
+    asm = rng.choice(["thunk%d:\nud2" % i, "nop\nret", "movl $%d, %%eax\nret" % rng.randrange(1 << 20), "jmp %s" % text[i - 1]["syms"][0]["name"]])
+    case["edits"] = [{"op": "insert", "block": i, "off": off, "asm": asm}]
+    if rng.random() < 0.4:
+        # and something in the function in front of it, in the same pass
+        offs = emodify.block_layout(text[i - 1])
+        case["edits"].insert(rng.randrange(2), {"op": "insert", "block": i - 1, "off": rng.choice(offs[:-1] or [0]), "asm": "nop"})
+    return case
+
+
 def run(ctx):
     LE.run(ctx, "C06", 1500, 40000)
     camp = LE.Campaign(ctx, "C06")
+    for _ in range(ctx.budget(60, 1500)):
+        case = code_into_data(ctx.rng)
+        if case is not None:
+            ctx.count("code-into-data")
+            camp.add(case)
     for _ in range(ctx.budget(60, 1500)):
         case = data_tail_then_code(ctx.rng)
         if case is not None:
